@@ -1,9 +1,8 @@
 ----------------------------- MODULE X64_Eval -----------------------------
 (* Idiom E for the x86-64 part of C08 / C07: one state per record observed   *)
-(* on the real ppci code (harness/x64gen.py).  The verdict of a record is    *)
-(* computed when the record is picked and carried in the state variable v,   *)
-(* so that a rejected record reports what exactly disagrees; one invariant   *)
-(* per property clause.                                                      *)
+(* on the real ppci code (harness/x64gen.py); one invariant per property     *)
+(* clause, evaluated on the record of the state (state level, where TLC      *)
+(* caches LET values and operator arguments).                                *)
 (*                                                                           *)
 (* t = "enc": mn, ops   the printed text of the instance, tokenised          *)
 (*            msz       operand width of the instruction class in bits (0:   *)
@@ -13,14 +12,15 @@
 (*            out       [ok, exc, bytes] = what encode() (+ the instruction's*)
 (*                      own relocation) produced                             *)
 (* t = "rw":  bytes, uses / defs / clob = register names ppci declares       *)
+(*                                                                           *)
+(* X64_Explain.tla writes the same verdict records to a file for the records *)
+(* this module rejects (what exactly disagrees: used for keys and messages). *)
 EXTENDS X64, Json, IOUtils, TLC
 Recs == JsonDeserialize(IOEnv.TRACE_FILE)
 ChunkLen == 16
 NChunks == (Len(Recs) + ChunkLen - 1) \div ChunkLen
-VARIABLES chunk, i, v
-vars == <<chunk, i, v>>
-
-SetOf(q) == {q[j] : j \in 1..Len(q)}
+VARIABLES chunk, i
+vars == <<chunk, i>>
 
 \* ---- C08
 EncVerdict2(r, d) ==
@@ -45,24 +45,23 @@ RwVerdict2(r, d) ==
         dmn |-> d.mn]
 RwVerdict(r) == RwVerdict2(r, Decode(r.bytes))
 
-Verdict(r) == IF r.t = "enc" THEN EncVerdict(r) ELSE RwVerdict(r)
-
-Init == chunk = 0 /\ i = 0 /\ v = [t |-> "none"]
-PickChunk == chunk = 0 /\ chunk' \in 1..NChunks /\ i' = 0 /\ v' = v
+Init == chunk = 0 /\ i = 0
+PickChunk == chunk = 0 /\ chunk' \in 1..NChunks /\ i' = 0
 PickRec == chunk > 0 /\ i = 0 /\ chunk' = chunk
            /\ i' \in ((chunk - 1) * ChunkLen + 1)..(IF chunk * ChunkLen < Len(Recs) THEN chunk * ChunkLen ELSE Len(Recs))
-           /\ v' = Verdict(Recs[i'])
 Next == PickChunk \/ PickRec
 
+IsEnc == i > 0 /\ Recs[i].t = "enc"
+IsRw == i > 0 /\ Recs[i].t = "rw"
 \* not verdicts (reported as notes): the printed line is outside the modelled syntax / the bytes are outside the decoder's subset
-SyntaxKnown == v.t = "enc" => v.syn
-Decodable == v.t \in {"enc", "rw"} => v.st # "unsupported"
+SyntaxKnown == IsEnc => EncVerdict(Recs[i]).syn
+Decodable == (IsEnc => EncVerdict(Recs[i]).st # "unsupported") /\ (IsRw => RwVerdict(Recs[i]).st # "unsupported")
 \* C08: the bytes ppci emits decode to the operation and operands it prints
-EncodingAgrees == (v.t = "enc" /\ v.syn /\ v.st # "unsupported") => v.agree
-OperandSizeAgrees == (v.t = "enc" /\ v.syn /\ v.st = "ok") => v.size
+EncodingAgrees == IsEnc => \E v \in {EncVerdict(Recs[i])} : (v.syn /\ v.st # "unsupported") => v.agree
+OperandSizeAgrees == IsEnc => \E v \in {EncVerdict(Recs[i])} : (v.syn /\ v.st = "ok") => v.size
 \* C07: whatever the emitted instruction reads / writes is declared (rsp of push / pop / call / ret is fixed implicit state)
-OperandReadsDeclared == v.t = "rw" => v.mr = {}
-ImplicitReadsDeclared == v.t = "rw" => v.mri = {}
-OperandWritesDeclared == v.t = "rw" => v.mw = {}
-ImplicitWritesDeclared == v.t = "rw" => v.mwi = {}
+OperandReadsDeclared == IsRw => RwVerdict(Recs[i]).mr = {}
+ImplicitReadsDeclared == IsRw => RwVerdict(Recs[i]).mri = {}
+OperandWritesDeclared == IsRw => RwVerdict(Recs[i]).mw = {}
+ImplicitWritesDeclared == IsRw => RwVerdict(Recs[i]).mwi = {}
 =============================================================================
